@@ -122,8 +122,8 @@ Proof. intros P K greg exons ireg II extra orc fl Hd Hmoe Hsdg Hne Hsz Hszi HK H
       destruct (HRk r Hr) as (k & Hk & ->). rewrite (HR k Hk). cbn [fst snd]. pose proof (HEL k Hk). split; [lia|].
       destruct (HK eq_refl) as [HKw|HK2].
       + left. intros k' Hk'. rewrite forallb_forall in HKw. specialize (HKw k' Hk'). unfold wf_b in HKw. lia.
-      + right. pose proof (forallb_nth _ R (0,0) (Z.to_nat k) HK2 ltac:(subst n; unfold lenz in *; lia)) as H.
-        cbn beta in H. rewrite <- J_nth, (HR k Hk) in H. unfold py_interval_len in H. cbn [fst snd] in H. lia.
+      + right. pose proof (forallb_nth _ R (0,0) (Z.to_nat k) HK2 ltac:(subst n; unfold lenz in *; lia)) as H2d.
+        cbn beta in H2d. rewrite <- J_nth, (HR k Hk) in H2d. unfold py_interval_len in H2d. cbn [fst snd] in H2d. lia.
     - subst df. apply Forall2_refl_near. apply Forall_forall. intros r Hr.
       destruct (HRk r Hr) as (k & Hk & ->). rewrite (HR k Hk). cbn [fst snd]. pose proof (Hgap k Hk). lia. }
   destruct (Forall2_nth _ _ _ HCI2) as (HCIl & HCIn).
